@@ -210,6 +210,7 @@ func runC17(c *Ctx, r *Rec) {
 	}
 	r.floor("D1-cursor", 10)
 
+	checkReceiverWrites(c, r, "D1-receiver-writes-persist", it)
 	// ---- D2 frozen fields
 	for _, f := range []*types.Var{valuesF, sizeF} {
 		construct := "agent." + it.Obj().Name() + "." + f.Name()
